@@ -3,7 +3,7 @@
 usage: reseed.py [name ...]   (default: all).  The patch is applied to /repo and undone straight afterwards."""
 import json, os, subprocess, sys, time
 V = os.path.dirname(os.path.dirname(os.path.abspath(__file__)))
-REPO = os.environ.get('VERIF_DEV_REPO') or REPO
+REPO = os.environ.get('VERIF_DEV_REPO') or '/repo'
 names = sys.argv[1:] or sorted(os.listdir(os.path.join(V, 'seeded')))
 for name in names:
     d = os.path.join(V, 'seeded', name)
